@@ -134,4 +134,499 @@ theorem contig (d : Nat → Nat) (a i : Nat) (h : ∀ k, a < k → k ≤ i → p
         omega
 
 end lin
+
+/-! ### counting over an interval -/
+
+/-- number of `j` in `[lo, lo + len)` with `P j` -/
+def cntP (P : Nat → Bool) (lo len : Nat) : Nat := (List.range' lo len).countP P
+
+theorem cntP_zero (P : Nat → Bool) (lo : Nat) : cntP P lo 0 = 0 := rfl
+
+theorem cntP_succ_bot (P : Nat → Bool) (lo len : Nat) :
+    cntP P lo (len + 1) = (if P lo then 1 else 0) + cntP P (lo + 1) len := by
+  simp only [cntP, List.range'_succ, List.countP_cons]; omega
+
+theorem cntP_succ_top (P : Nat → Bool) (lo len : Nat) :
+    cntP P lo (len + 1) = cntP P lo len + (if P (lo + len) then 1 else 0) := by
+  simp only [cntP, List.range'_concat, List.countP_append, List.countP_cons, List.countP_nil]
+  simp
+
+theorem cntP_add (P : Nat → Bool) (lo a b : Nat) : cntP P lo (a + b) = cntP P lo a + cntP P (lo + a) b := by
+  induction b with
+  | zero => simp [cntP_zero]
+  | succ b ih =>
+      rw [← Nat.add_assoc, cntP_succ_top, cntP_succ_top, ih]
+      simp only [Nat.add_assoc]
+
+theorem cntP_false (P : Nat → Bool) (lo len : Nat) (h : ∀ j, lo ≤ j → j < lo + len → P j = false) :
+    cntP P lo len = 0 := by
+  induction len with
+  | zero => rfl
+  | succ len ih =>
+      rw [cntP_succ_top, ih (fun j h1 h2 => h j h1 (by omega)), h (lo + len) (by omega) (by omega)]
+      simp
+
+theorem cntP_congr (P Q : Nat → Bool) (lo len : Nat) (h : ∀ j, lo ≤ j → j < lo + len → P j = Q j) :
+    cntP P lo len = cntP Q lo len := by
+  induction len with
+  | zero => rfl
+  | succ len ih =>
+      rw [cntP_succ_top, cntP_succ_top, ih (fun j h1 h2 => h j h1 (by omega)),
+        h (lo + len) (by omega) (by omega)]
+
+theorem exists_first (P : Nat → Prop) (i : Nat) (h : P i) : ∃ f, f ≤ i ∧ P f ∧ ∀ k, k < f → ¬ P k := by
+  induction i using Nat.strongRecOn with
+  | _ i ih =>
+      by_cases hex : ∃ k, k < i ∧ P k
+      · obtain ⟨k, hk, hpk⟩ := hex
+        obtain ⟨f, hf, hpf, hmin⟩ := ih k hk hpk
+        exact ⟨f, by omega, hpf, hmin⟩
+      · exact ⟨i, Nat.le_refl _, h, fun k hk hp => hex ⟨k, hk, hp⟩⟩
+
+section lin2
+variable {s : QF} {n e m : Nat} {d r : Nat → Nat}
+
+/-- "is a continuation", as a function of the element index -/
+def contF (d : Nat → Nat) (i : Nat) : Bool := decide (i ≠ 0) && decide (d i = d (i - 1))
+
+/-- the home of an element is the position of some (earlier or equal) element -/
+theorem pos_of_home (L : Lin s n e m d r) (f : Nat) (hf : f < m) :
+    ∃ k, k ≤ f ∧ posF d k = d f := by
+  obtain ⟨a, ha, hpa, hk⟩ := cluster d f
+  have hc := contig d a f hk
+  have h1 : d a ≤ d f := d_mono L a f ha hf
+  have h2 := p_ge_d d f
+  have h3 := hc f ha (Nat.le_refl _)
+  refine ⟨a + (d f - posF d a), by omega, ?_⟩
+  rw [hc _ (by omega) (by omega)]; omega
+
+theorem isEmpty_cell (L : Lin s n e m d r) (i : Nat) (hi : i < m) :
+    s.isEmpty (io n e (posF d i)) = false := by
+  by_cases h : posF d i = d i
+  · have hx : posF d i < n := by have := L.fit i hi; omega
+    have : bit s.occ (io n e (posF d i)) = true := (L.occ _ hx).2 ⟨i, hi, h.symm⟩
+    simp [isEmpty, this]
+  · have := L.shift i hi
+    simp only [h, ne_eq, not_false_eq_true, decide_true] at this
+    simp [isEmpty, this]
+
+theorem isEmpty_nocell (L : Lin s n e m d r) (x : Nat) (hx : x < n)
+    (h : ∀ i, i < m → posF d i ≠ x) : s.isEmpty (io n e x) = true := by
+  obtain ⟨h1, h2⟩ := L.nocell x hx h
+  have h3 : bit s.occ (io n e x) = false := by
+    cases ho : bit s.occ (io n e x)
+    · rfl
+    · obtain ⟨f, hf, hdf⟩ := (L.occ x hx).1 ho
+      obtain ⟨k, hk, hpk⟩ := pos_of_home L f hf
+      exact absurd (hpk.trans hdf) (h k (by omega))
+  simp [isEmpty, h1, h2, h3]
+
+/-! ### `_get_start_index` -/
+
+/-- the first loop: from distance `c + k` down to the first unshifted slot `c` -/
+theorem startBack_walk (hs : s.size = n) (hn : 0 < n) (qq c : Nat)
+    (hc : bit s.shift (io n e c) = false) :
+    ∀ k j acc fuel, j = c + k →
+      (∀ j', c < j' → j' ≤ j → bit s.shift (io n e j') = true) → k < fuel →
+      startBack s qq fuel (io n e j) acc =
+        .ok (io n e c, acc + cntP (fun j' => io n e j' == qq || bit s.occ (io n e j')) c (k + 1)) := by
+  intro k
+  induction k with
+  | zero =>
+      intro j acc fuel hj _ hf
+      obtain ⟨fuel, rfl⟩ : ∃ f', fuel = f' + 1 := ⟨fuel - 1, by omega⟩
+      simp only [Nat.add_zero] at hj
+      subst hj
+      simp only [startBack, hc, Bool.false_eq_true, if_false, cntP_succ_bot, cntP_zero]
+      congr 2
+      split <;> simp
+  | succ k ih =>
+      intro j acc fuel hj hsh hf
+      obtain ⟨fuel, rfl⟩ : ∃ f', fuel = f' + 1 := ⟨fuel - 1, by omega⟩
+      have hshj := hsh j (by omega) (Nat.le_refl _)
+      simp only [startBack, hshj, if_true]
+      rw [prv_io s n e j hs hn (by omega)]
+      rw [ih (j - 1) _ fuel (by omega) (fun j' h1 h2 => hsh j' h1 (by omega)) (by omega)]
+      rw [cntP_succ_top _ c (k + 1)]
+      have : c + (k + 1) = j := by omega
+      rw [this]
+      by_cases hP : (io n e j == qq || bit s.occ (io n e j)) = true
+      · simp only [hP, if_true]; congr 2; omega
+      · simp only [hP]; rfl
+
+/-- the number of occupied homes between two homes is the number of run starts between the two
+    elements -/
+theorem count_runs (L : Lin s n e m d r) (a : Nat) (ha : contF d a = false) :
+    ∀ t, a + t < m →
+      cntP (fun j => bit s.occ (io n e j)) (d a) (d (a + t) - d a + 1) =
+        cntP (fun k => !contF d k) a (t + 1) := by
+  intro t
+  induction t with
+  | zero =>
+      intro hm
+      have hx : d a < n := by have := L.fit a hm; have := p_ge_d d a; omega
+      have : bit s.occ (io n e (d a)) = true := (L.occ _ hx).2 ⟨a, hm, rfl⟩
+      simp [cntP_succ_bot, cntP_zero, this, ha]
+  | succ t ih =>
+      intro hm
+      have ih := ih (by omega)
+      have hmono : d a ≤ d (a + t) := d_mono L a (a + t) (by omega) (by omega)
+      rw [cntP_succ_top _ a (t + 1), ← ih]
+      have hso := L.sorted (a + t) (by omega)
+      rw [show a + (t + 1) = a + t + 1 by omega]
+      by_cases heq : d (a + t) = d (a + t + 1)
+      · have : contF d (a + t + 1) = true := by simp [contF, heq]
+        rw [this, ← heq]
+        simp
+      · have hlt : d (a + t) < d (a + t + 1) := by omega
+        have hnc : contF d (a + t + 1) = false := by
+          simp only [contF, Nat.add_sub_cancel, Bool.and_eq_false_iff, decide_eq_false_iff_not]
+          right; omega
+        rw [hnc]
+        have hsplit : d (a + t + 1) - d a + 1 = (d (a + t) - d a + 1) + ((d (a + t + 1) - d (a + t) - 1) + 1) := by
+          omega
+        rw [hsplit, cntP_add]
+        congr 1
+        rw [cntP_succ_top (fun j => bit s.occ (io n e j)) (d a + (d (a + t) - d a + 1))
+          (d (a + t + 1) - d (a + t) - 1)]
+        have hx : d (a + t + 1) < n := by
+          have := L.fit (a + t + 1) (by omega); have := p_ge_d d (a + t + 1); omega
+        have h1 : bit s.occ (io n e (d (a + t + 1))) = true := (L.occ _ hx).2 ⟨a + t + 1, by omega, rfl⟩
+        have h2 : d a + (d (a + t) - d a + 1) + (d (a + t + 1) - d (a + t) - 1) = d (a + t + 1) := by omega
+        rw [h2, h1]
+        rw [cntP_false]
+        · simp
+        · intro j hj1 hj2
+          cases ho : bit s.occ (io n e j)
+          · rfl
+          · exfalso
+            obtain ⟨i, hi, hdi⟩ := (L.occ j (by omega)).1 ho
+            by_cases hia : i ≤ a + t
+            · have := d_mono L i (a + t) hia (by omega); omega
+            · have := d_mono L (a + t + 1) i (by omega) hi; omega
+
+/-- the second loop: from the cluster start over `cnts - 1` run starts -/
+theorem startFwd_walk (L : Lin s n e m d r) (a f : Nat) (hf : f < m)
+    (hcontig : ∀ k, a ≤ k → k ≤ f → posF d k = posF d a + (k - a)) (hncf : contF d f = false) :
+    ∀ t k cnts fuel, f = k + t → a ≤ k → cnts = cntP (fun k => !contF d k) k (t + 1) → t < fuel →
+      startFwd s fuel (io n e (posF d k)) cnts = .ok (io n e (posF d f)) := by
+  intro t
+  induction t with
+  | zero =>
+      intro k cnts fuel hk hak hc hfu
+      obtain ⟨fuel, rfl⟩ : ∃ f', fuel = f' + 1 := ⟨fuel - 1, by omega⟩
+      simp only [Nat.add_zero] at hk
+      subst hk
+      have hcb := L.cont f hf
+      rw [show (decide (f ≠ 0) && decide (d f = d (f - 1))) = contF d f from rfl, hncf] at hcb
+      simp only [cntP_succ_bot, cntP_zero, hncf] at hc
+      simp [startFwd, hcb, hc]
+  | succ t ih =>
+      intro k cnts fuel hk hak hc hfu
+      obtain ⟨fuel, rfl⟩ : ∃ f', fuel = f' + 1 := ⟨fuel - 1, by omega⟩
+      have hkm : k < m := by omega
+      have hcb := L.cont k hkm
+      rw [show (decide (k ≠ 0) && decide (d k = d (k - 1))) = contF d k from rfl] at hcb
+      have hnext : s.nxt (io n e (posF d k)) = io n e (posF d (k + 1)) := by
+        rw [nxt_io s n e _ L.size, hcontig k hak (by omega), hcontig (k + 1) (by omega) (by omega)]
+        congr 1; omega
+      rw [cntP_succ_bot] at hc
+      have hpos : 1 ≤ cntP (fun k => !contF d k) (k + 1) (t + 1) := by
+        rw [cntP_succ_top, show k + 1 + t = f by omega, hncf]; simp
+      cases hck : contF d k
+      · -- a run start that is not the last one
+        rw [hck] at hcb hc
+        simp only [Bool.not_false, if_true] at hc
+        have hne : (cnts == 1) = false := by
+          simp only [beq_eq_false_iff_ne]; omega
+        simp only [startFwd, hcb, Bool.not_false, if_true, hne, Bool.false_eq_true, if_false, hnext]
+        exact ih (k + 1) (cnts - 1) fuel (by omega) (by omega) (by omega) (by omega)
+      · rw [hck] at hcb hc
+        simp only [Bool.not_true, Bool.false_eq_true, if_false, Nat.zero_add] at hc
+        simp only [startFwd, hcb, Bool.not_true, Bool.false_eq_true, if_false, hnext]
+        exact ih (k + 1) cnts fuel (by omega) (by omega) hc (by omega)
+
+/-- `_get_start_index` of an occupied quotient is the position of its first element -/
+theorem getStartIndex_lin (L : Lin s n e m d r) (f : Nat) (hf : f < m)
+    (hfirst : ∀ k, k < f → d k ≠ d f) :
+    s.getStartIndex (io n e (d f)) = .ok (io n e (posF d f)) := by
+  have hn : 0 < n := by have := L.n2; omega
+  obtain ⟨a, ha, hpa, hk⟩ := cluster d f
+  have hc := contig d a f hk
+  have hda : d a ≤ d f := d_mono L a f ha hf
+  have hpf := hc f ha (Nat.le_refl _)
+  have hdf := p_ge_d d f
+  have hfit := L.fit f hf
+  -- the slot at the home of `f` holds an element, so it is not empty
+  obtain ⟨k0, hk0, hpk0⟩ := pos_of_home L f hf
+  have hne : s.isEmpty (io n e (d f)) = false := by
+    rw [← hpk0]; exact isEmpty_cell L k0 (by omega)
+  simp only [getStartIndex, hne, Bool.false_eq_true, if_false]
+  -- first loop
+  have hsh_a : bit s.shift (io n e (posF d a)) = false := by
+    rw [L.shift a (by omega)]; simp [hpa]
+  have hback := startBack_walk (s := s) (e := e) L.size hn (io n e (d f)) (posF d a) hsh_a
+    (d f - posF d a) (d f) 0 s.fuelOf (by omega)
+    (by
+      intro j' h1 h2
+      have hkk := hc (a + (j' - posF d a)) (by omega) (by omega)
+      have hj' : posF d (a + (j' - posF d a)) = j' := by omega
+      have := L.shift (a + (j' - posF d a)) (by omega)
+      rw [hj'] at this
+      rw [this]
+      have := hk (a + (j' - posF d a)) (by omega) (by omega)
+      rw [hj'] at this
+      simp [this])
+    (by simp only [fuelOf, L.size]; omega)
+  rw [hback]
+  simp only [Nat.zero_add]
+  -- the count is the number of run starts from `a` to `f`
+  have hocc_f : bit s.occ (io n e (d f)) = true := (L.occ _ (by omega)).2 ⟨f, hf, rfl⟩
+  have hcnt1 : cntP (fun j' => io n e j' == io n e (d f) || bit s.occ (io n e j')) (posF d a)
+      (d f - posF d a + 1) = cntP (fun j => bit s.occ (io n e j)) (posF d a) (d f - posF d a + 1) := by
+    apply cntP_congr
+    intro j h1 h2
+    by_cases hj : j = d f
+    · subst hj; simp [hocc_f]
+    · have : (io n e j == io n e (d f)) = false := by
+        simp only [beq_eq_false_iff_ne]
+        intro h; exact hj (io_inj n e j (d f) (by omega) (by omega) h)
+      simp [this]
+  have hnca : contF d a = false := by
+    simp only [contF, Bool.and_eq_false_iff, decide_eq_false_iff_not]
+    by_cases ha0 : a = 0
+    · left; omega
+    · right
+      intro heq
+      have h1 := p_ge_d d (a - 1)
+      have h2 := p_lt d (a - 1) a (by omega)
+      omega
+  have hncf : contF d f = false := by
+    simp only [contF, Bool.and_eq_false_iff, decide_eq_false_iff_not]
+    by_cases hf0 : f = 0
+    · left; omega
+    · right; intro heq; exact hfirst (f - 1) (by omega) heq.symm
+  have hcnt2 := count_runs L a hnca (f - a) (by omega)
+  rw [show a + (f - a) = f by omega] at hcnt2
+  rw [hcnt1, hpa, hcnt2, ← hpa]
+  exact startFwd_walk L a f hf hc hncf (f - a) a _ s.fuelOf (by omega) (Nat.le_refl _) rfl
+    (by simp only [fuelOf, L.size]; omega)
+
+/-! ### `_contained_at_loc` -/
+
+theorem exists_last (P : Nat → Prop) (m : Nat) : ∀ t i, m = i + t + 1 → P i →
+    ∃ g, i ≤ g ∧ g < m ∧ P g ∧ ∀ k, g < k → k < m → ¬ P k := by
+  intro t
+  induction t with
+  | zero => intro i hm h; exact ⟨i, Nat.le_refl _, by omega, h, fun k h1 h2 => by omega⟩
+  | succ t ih =>
+      intro i hm h
+      by_cases hex : ∃ k, i < k ∧ k < m ∧ P k
+      · obtain ⟨k, hk1, hk2, hpk⟩ := hex
+        -- induct on the distance of `k` to the end
+        have : ∀ u k, m = k + u + 1 → i < k → P k → ∃ g, i ≤ g ∧ g < m ∧ P g ∧ ∀ k, g < k → k < m → ¬ P k := by
+          intro u
+          induction u using Nat.strongRecOn with
+          | _ u ihu =>
+              intro k hmk hik hpk
+              by_cases hex2 : ∃ k', k < k' ∧ k' < m ∧ P k'
+              · obtain ⟨k', h1, h2, h3⟩ := hex2
+                exact ihu (m - k' - 1) (by omega) k' (by omega) (by omega) h3
+              · exact ⟨k, by omega, by omega, hpk, fun k' h1 h2 h3 => hex2 ⟨k', h1, h2, h3⟩⟩
+        exact this (m - k - 1) k (by omega) hk1 hpk
+      · exact ⟨i, Nat.le_refl _, by omega, h, fun k h1 h2 h3 => hex ⟨k, h1, h2, h3⟩⟩
+
+/-- the look-up loop walks the run of elements `f … g` (all with the same home), which is sorted
+    by remainder -/
+theorem containedLoop_run (L : Lin s n e m d r) (f g : Nat) (hg : g < m)
+    (hgrp : ∀ k, f ≤ k → k ≤ g → d k = d f) (hlast : g + 1 < m → d (g + 1) ≠ d f)
+    (hncf : contF d f = false) (rr : Nat) :
+    ∀ t k fuel, g = k + t → f ≤ k → t + 1 < fuel →
+      ∃ o, containedLoop s rr fuel (io n e (posF d k)) (if k = f then 0 else 1) = .ok o ∧
+        (o.isSome = true ↔ ∃ k', k ≤ k' ∧ k' ≤ g ∧ r k' = rr) := by
+  have hrmono : ∀ k k', f ≤ k → k ≤ k' → k' ≤ g → r k ≤ r k' := by
+    intro k k' h1 h2 h3
+    induction k' with
+    | zero => have : k = 0 := by omega
+              subst this; exact Nat.le_refl _
+    | succ k' ih =>
+        by_cases hk : k = k' + 1
+        · subst hk; exact Nat.le_refl _
+        · have := ih (by omega) (by omega)
+          have hso := L.sorted k' (by omega)
+          have e1 := hgrp k' (by omega) (by omega)
+          have e2 := hgrp (k' + 1) (by omega) (by omega)
+          omega
+  intro t
+  induction t with
+  | zero =>
+      intro k fuel hk hfk hfu
+      simp only [Nat.add_zero] at hk
+      subst hk
+      obtain ⟨fuel, rfl⟩ : ∃ f', fuel = f' + 2 := ⟨fuel - 2, by omega⟩
+      have hce := isEmpty_cell L g hg
+      have hcb := L.cont g hg
+      rw [show (decide (g ≠ 0) && decide (d g = d (g - 1))) = contF d g from rfl] at hcb
+      have hrem := L.rem g hg
+      have hstarts : (if (!bit s.cont (io n e (posF d g))) = true then (if g = f then 0 else 1) + 1
+          else (if g = f then 0 else 1)) = 1 := by
+        rw [hcb]
+        by_cases hgf : g = f
+        · subst hgf; simp [hncf]
+        · have : contF d g = true := by
+            simp only [contF, Bool.and_eq_true, decide_eq_true_eq]
+            refine ⟨by omega, ?_⟩
+            rw [hgrp g (by omega) (Nat.le_refl _), hgrp (g - 1) (by omega) (by omega)]
+          simp [this, hgf]
+      simp only [containedLoop, hce, Bool.false_eq_true, if_false, hstarts, hrem]
+      by_cases h1 : r g > rr
+      · refine ⟨none, by simp [h1], ?_⟩
+        simp only [Option.isSome_none, Bool.false_eq_true, false_iff, not_exists, not_and]
+        intro k' h2 h3; have : k' = g := by omega
+        subst this; omega
+      · by_cases h2 : r g = rr
+        · refine ⟨some (io n e (posF d g)), by simp [h2], ?_⟩
+          simp only [Option.isSome_some, true_iff]
+          exact ⟨g, Nat.le_refl _, Nat.le_refl _, h2⟩
+        · have hnext := nxt_io s n e (posF d g) L.size
+          have hgt : ¬ (r g > rr) := h1
+          have hbeq : (r g == rr) = false := by simp [h2]
+          simp only [show ((1 : Nat) == 2) = false from rfl, Bool.false_or, decide_eq_true_eq, hgt,
+            if_false, hbeq, Bool.false_eq_true, hnext]
+          refine ⟨none, ?_, ?_⟩
+          · -- the slot behind the run: the start of the next run, or empty
+            have hfit := L.fit g hg
+            by_cases hcell : g + 1 < m ∧ posF d (g + 1) = posF d g + 1
+            · obtain ⟨hm1, hp1⟩ := hcell
+              rw [← hp1]
+              have hce1 := isEmpty_cell L (g + 1) hm1
+              have hcb1 := L.cont (g + 1) hm1
+              have hne : d (g + 1) ≠ d g := by
+                rw [hgrp g hfk (Nat.le_refl _)]; exact hlast hm1
+              have : (decide (g + 1 ≠ 0) && decide (d (g + 1) = d (g + 1 - 1))) = false := by
+                simp [hne]
+              rw [this] at hcb1
+              simp [hce1, hcb1]
+            · have hno : ∀ i, i < m → posF d i ≠ posF d g + 1 := by
+                intro i hi heq
+                by_cases hig : i ≤ g
+                · have := p_mono d i g hig; omega
+                · have h3 := p_mono d (g + 1) i (by omega)
+                  have h4 := p_step d g
+                  have : i = g + 1 := by
+                    by_cases hh : i = g + 1
+                    · exact hh
+                    · have := p_lt d (g + 1) i (by omega); omega
+                  subst this
+                  exact hcell ⟨hi, heq⟩
+              have := isEmpty_nocell L (posF d g + 1) (by omega) hno
+              simp [this]
+          · simp only [Option.isSome_none, Bool.false_eq_true, false_iff, not_exists, not_and]
+            intro k' h3 h4; have : k' = g := by omega
+            subst this; exact h2
+  | succ t ih =>
+      intro k fuel hk hfk hfu
+      obtain ⟨fuel, rfl⟩ : ∃ f', fuel = f' + 1 := ⟨fuel - 1, by omega⟩
+      have hkm : k < m := by omega
+      have hce := isEmpty_cell L k hkm
+      have hcb := L.cont k hkm
+      rw [show (decide (k ≠ 0) && decide (d k = d (k - 1))) = contF d k from rfl] at hcb
+      have hrem := L.rem k hkm
+      have hstarts : (if (!bit s.cont (io n e (posF d k))) = true then (if k = f then 0 else 1) + 1
+          else (if k = f then 0 else 1)) = 1 := by
+        rw [hcb]
+        by_cases hgf : k = f
+        · subst hgf; simp [hncf]
+        · have : contF d k = true := by
+            simp only [contF, Bool.and_eq_true, decide_eq_true_eq]
+            refine ⟨by omega, ?_⟩
+            rw [hgrp k (by omega) (by omega), hgrp (k - 1) (by omega) (by omega)]
+          simp [this, hgf]
+      simp only [containedLoop, hce, Bool.false_eq_true, if_false, hstarts, hrem]
+      by_cases h1 : r k > rr
+      · refine ⟨none, by simp [h1], ?_⟩
+        simp only [Option.isSome_none, Bool.false_eq_true, false_iff, not_exists, not_and]
+        intro k' h2 h3 h4
+        have := hrmono k k' hfk h2 h3
+        omega
+      · by_cases h2 : r k = rr
+        · refine ⟨some (io n e (posF d k)), by simp [h2], ?_⟩
+          simp only [Option.isSome_some, true_iff]
+          exact ⟨k, Nat.le_refl _, by omega, h2⟩
+        · have hnext := nxt_io s n e (posF d k) L.size
+          have hgt : ¬ (r k > rr) := h1
+          have hbeq : (r k == rr) = false := by simp [h2]
+          simp only [show ((1 : Nat) == 2) = false from rfl, Bool.false_or, decide_eq_true_eq, hgt,
+            if_false, hbeq, Bool.false_eq_true, hnext]
+          have hp1 : posF d (k + 1) = posF d k + 1 := by
+            apply p_shifted
+            have e1 := hgrp k hfk (by omega)
+            have e2 := hgrp (k + 1) (by omega) (by omega)
+            have := p_ge_d d k
+            have := p_step d k
+            omega
+          rw [← hp1]
+          obtain ⟨o, ho, hiff⟩ := ih (k + 1) fuel (by omega) (by omega) (by omega)
+          rw [if_neg (by omega)] at ho
+          refine ⟨o, ho, ?_⟩
+          rw [hiff]
+          constructor
+          · rintro ⟨k', h3, h4, h5⟩; exact ⟨k', by omega, h4, h5⟩
+          · rintro ⟨k', h3, h4, h5⟩
+            refine ⟨k', ?_, h4, h5⟩
+            by_cases hkk : k' = k
+            · subst hkk; exact absurd h5 h2
+            · omega
+
+/-- **Layer A1 on the linear view**: the look-up terminates and finds exactly the stored elements -/
+theorem containedAtLoc_lin (L : Lin s n e m d r) (x : Nat) (hx : x < n) (rr : Nat) :
+    ∃ o, s.containedAtLoc (io n e x) rr = .ok o ∧
+      (o.isSome = true ↔ ∃ i, i < m ∧ d i = x ∧ r i = rr) := by
+  simp only [containedAtLoc]
+  cases ho : bit s.occ (io n e x)
+  · refine ⟨none, by simp, ?_⟩
+    simp only [Option.isSome_none, Bool.false_eq_true, false_iff, not_exists, not_and]
+    intro i hi hdi
+    have := (L.occ x hx).2 ⟨i, hi, hdi⟩
+    rw [ho] at this; cases this
+  · obtain ⟨i, hi, hdi⟩ := (L.occ x hx).1 ho
+    obtain ⟨f, hfi, hdf, hfmin⟩ := exists_first (fun k => d k = x) i hdi
+    obtain ⟨g, hig, hgm, hdg, hgmax⟩ := exists_last (fun k => d k = x) m (m - i - 1) i (by omega) hdi
+    have hfm : f < m := by omega
+    have hgrp : ∀ k, f ≤ k → k ≤ g → d k = d f := by
+      intro k h1 h2
+      have := d_mono L f k h1 (by omega)
+      have := d_mono L k g h2 hgm
+      omega
+    have hstart := getStartIndex_lin L f hfm (by intro k hk; rw [hdf]; exact hfmin k hk)
+    rw [hdf] at hstart
+    have hncf : contF d f = false := by
+      simp only [contF, Bool.and_eq_false_iff, decide_eq_false_iff_not]
+      by_cases hf0 : f = 0
+      · left; omega
+      · right; intro heq; exact hfmin (f - 1) (by omega) (by rw [← heq]; exact hdf)
+    have hlen : g - f ≤ n := by
+      have := p_mono d f g (by omega)
+      have := L.fit g hgm
+      omega
+    obtain ⟨o, ho', hiff⟩ := containedLoop_run L f g hgm hgrp
+      (by intro h1; rw [hdf]; exact hgmax (g + 1) (by omega) h1) hncf rr (g - f) f s.fuelOf (by omega)
+      (Nat.le_refl _) (by simp only [fuelOf, L.size]; omega)
+    simp only [if_true] at ho'
+    simp only [Bool.not_true, Bool.false_eq_true, if_false, hstart, ho']
+    refine ⟨o, rfl, ?_⟩
+    rw [hiff]
+    constructor
+    · rintro ⟨k', h1, h2, h3⟩
+      exact ⟨k', by omega, by rw [hgrp k' h1 h2]; exact hdf, h3⟩
+    · rintro ⟨k', h1, h2, h3⟩
+      refine ⟨k', ?_, ?_, h3⟩
+      · by_cases hh : f ≤ k'
+        · exact hh
+        · exact absurd h2 (hfmin k' (by omega))
+      · by_cases hh : k' ≤ g
+        · exact hh
+        · exact absurd h2 (hgmax k' (by omega) h1)
+
+end lin2
 end PyProb.QFLin
